@@ -120,7 +120,9 @@ impl DefaultMetricSearcher {
         filenames: &[PathBuf],
         begin_time_ms: u64,
     ) -> Result<(SeekFrom, usize)> {
-        let cache_ok = self.is_position_in_time_for(begin_time_ms)?;
+        // a cached position that cannot be validated (its index file was removed by the
+        // retention of the writer, or is torn) is a cache miss, not a failed search
+        let cache_ok = self.is_position_in_time_for(begin_time_ms).unwrap_or(false);
         let mut i = 0;
         let mut offset_in_idx = SeekFrom::Start(0);
         let cached_pos = self.cached_pos.lock().unwrap();
